@@ -273,6 +273,48 @@ Proof.
   - intros H Hs. exact (send_staged_sess _ _ _ _ _ _ H Hs).
 Qed.
 
+(* a peer with the "initiation outstanding" flag cleared *)
+Definition forget_init (p : peer) : peer :=
+  {| p_ep := p_ep p; p_sess := p_sess p; p_hs_recent := p_hs_recent p; p_init_out := false;
+     p_staged := p_staged p |}.
+
+(* the peer after a refused Send: an initiation that was not transmitted is not outstanding *)
+Definition fault_adj (o : list out) (k : N) (p' : peer) : peer :=
+  match o with
+  | OInit _ _ :: _ => if k =? 0 then forget_init p' else p'
+  | _ => p'
+  end.
+
+Lemma fault_adj_fields o k p' :
+  p_ep (fault_adj o k p') = p_ep p' /\ p_sess (fault_adj o k p') = p_sess p' /\
+  p_staged (fault_adj o k p') = p_staged p' /\ p_hs_recent (fault_adj o k p') = p_hs_recent p' /\
+  forget_init (fault_adj o k p') = forget_init p'.
+Proof.
+  unfold fault_adj. destruct o as [|[| |] o]; try (repeat split; reflexivity).
+  destruct (k =? 0); repeat split; reflexivity.
+Qed.
+
+Lemma peer_step_fault_eq tbl mtu i p pkts q k :
+  peer_step tbl mtu true i p (TunBatchFault pkts q k) =
+  let '(p', o) := tun_step tbl mtu i p pkts in
+  if q =? i then (fault_adj o k p', firstn (N.to_nat k) o) else (p', o).
+Proof. reflexivity. Qed.
+
+Lemma peer_step_fault_inv tbl mtu i p pkts q k p' os :
+  peer_step tbl mtu true i p (TunBatchFault pkts q k) = (p', os) ->
+  exists p1 o1, tun_step tbl mtu i p pkts = (p1, o1) /\
+    p_ep p' = p_ep p1 /\ p_sess p' = p_sess p1 /\ p_staged p' = p_staged p1 /\
+    p_hs_recent p' = p_hs_recent p1 /\ forget_init p' = forget_init p1 /\
+    p' = (if q =? i then fault_adj o1 k p1 else p1) /\
+    os = if q =? i then firstn (N.to_nat k) o1 else o1.
+Proof.
+  rewrite peer_step_fault_eq. destruct (tun_step tbl mtu i p pkts) as [p1 o1].
+  intros H. exists p1, o1. split; [reflexivity|].
+  destruct (q =? i); inversion H; subst; clear H.
+  - destruct (fault_adj_fields o1 k p1) as (A & B & C & D & E). repeat split; assumption.
+  - repeat split; reflexivity.
+Qed.
+
 Lemma peer_step_data tbl mtu up i p ev p' os q ep rcv ctr pk m :
   peer_step tbl mtu up i p ev = (p', os) -> In (OData q ep rcv ctr pk m) os ->
   q = i /\ m = mtu /\
@@ -284,9 +326,9 @@ Proof.
   9: intros H; inversion H; subst; intros [].
   9: destruct up; intros H; inversion H; subst; intros [].
   - apply tun_step_data.
-  - destruct (tun_step tbl mtu i p pkts) as [p1 o1] eqn:Ht.
-    intros H; inversion H; subst; clear H. intros Hin.
-    eapply tun_step_data; [exact Ht|].
+  - intros H Hin. apply peer_step_fault_inv in H.
+    destruct H as (p1 & o1 & Ht & Eep & Esess & _ & _ & _ & _ & ->).
+    rewrite Eep, Esess. eapply tun_step_data; [exact Ht|].
     destruct (fq =? i); [apply in_firstn in Hin|]; exact Hin.
   - intros H; inversion H; subst. intros [].
   - destruct (j =? i).
@@ -314,8 +356,8 @@ Proof.
   9: intros H; inversion H; subst; cbn [p_sess]; discriminate.
   9: destruct up; intros H; inversion H; subst; cbn [p_sess]; intros Hs; left; exists s'; auto.
   - intros H Hs. left. exact (tun_step_sess _ _ _ _ _ _ _ _ H Hs).
-  - destruct (tun_step tbl mtu i p pkts) as [p1 o1] eqn:Ht.
-    intros H; inversion H; subst; clear H. intros Hs. left.
+  - intros H Hs. apply peer_step_fault_inv in H.
+    destruct H as (p1 & o1 & Ht & _ & Esess & _). rewrite Esess in Hs. left.
     exact (tun_step_sess _ _ _ _ _ _ _ _ Ht Hs).
   - intros H; inversion H; subst. intros Hs. left. exists s'. auto.
   - destruct (N.eqb_spec j i) as [->|Hj].
@@ -641,8 +683,8 @@ Proof.
   9: destruct up; intros H; inversion H; subst; cbn [p_staged]; apply triv_count'.
   3-8: cbn [mine].
   - apply tun_step_count.
-  - destruct (tun_step tbl mtu i p pkts) as [p1 o1] eqn:Ht.
-    intros H; inversion H; subst; clear H.
+  - intros H. apply peer_step_fault_inv in H.
+    destruct H as (p1 & o1 & Ht & _ & _ & Estg & _ & _ & _ & ->). rewrite Estg.
     apply (tun_step_count _ _ _ _ _ _ _ x) in Ht.
     change (mine tbl i (TunBatchFault pkts fq fk)) with (mine tbl i (TunBatch pkts)).
     pose proof (firstn_data_count (N.to_nat fk) o1 x).
@@ -922,7 +964,7 @@ Qed.
 Lemma step_peers_fault tbl mtu up pkts q k : forall ps j ps1 o1 ps2 o2,
   step_peers tbl mtu up (TunBatch pkts) j ps = (ps1, o1) ->
   step_peers tbl mtu up (TunBatchFault pkts q k) j ps = (ps2, o2) ->
-  ps2 = ps1 /\
+  map forget_init ps2 = map forget_init ps1 /\
   forall i, filter (fun x => out_peer x =? i) o2 =
             if i =? q then firstn (N.to_nat k) (filter (fun x => out_peer x =? i) o1)
             else filter (fun x => out_peer x =? i) o1.
@@ -933,12 +975,16 @@ Proof.
   - destruct (step_peers tbl mtu up (TunBatch pkts) (j + 1) t) as [t1 os1] eqn:Ht1.
     destruct (step_peers tbl mtu up (TunBatchFault pkts q k) (j + 1) t) as [t2 os2] eqn:Ht2.
     pose proof (step_peers_tun_out_peer _ _ _ _ _ _ _ _ Ht1) as Habove.
-    destruct (IH _ _ _ _ _ Ht1 Ht2) as [-> Hf]. clear IH.
-    cbn [peer_step]. destruct up; cbn [negb].
-    + destruct (tun_step tbl mtu j p pkts) as [p' o] eqn:Hp.
+    destruct (IH _ _ _ _ _ Ht1 Ht2) as [Hm Hf]. clear IH.
+    destruct up.
+    + change (peer_step tbl mtu true j p (TunBatch pkts)) with (tun_step tbl mtu j p pkts).
+      destruct (peer_step tbl mtu true j p (TunBatchFault pkts q k)) as [p2 o2'] eqn:Hp2.
+      apply peer_step_fault_inv in Hp2.
+      destruct Hp2 as (p' & o & Hp & _ & _ & _ & _ & Hfi & _ & ->). rewrite Hp.
       pose proof (tun_step_out_peer _ _ _ _ _ _ _ Hp) as Ho.
       intros H1 H2; inversion H1; inversion H2; subst; clear H1 H2.
-      split; [reflexivity|]. intros i. rewrite !filter_app. specialize (Hf i).
+      split; [cbn [map]; rewrite Hfi, Hm; reflexivity|].
+      intros i. rewrite !filter_app. specialize (Hf i).
       destruct (N.eqb_spec i q) as [E|Hiq]; [subst i|].
       * destruct (N.eqb_spec q j) as [E|Hqj]; [subst q|].
         -- rewrite (filter_peer_same j) by (apply Forall_firstn; exact Ho).
@@ -950,17 +996,20 @@ Proof.
         -- rewrite (filter_peer_other i j) by (try assumption; apply Forall_firstn; exact Ho).
            rewrite (filter_peer_other i j o) by assumption. cbn [app]. exact Hf.
         -- rewrite Hf. reflexivity.
-    + intros H1 H2; inversion H1; inversion H2; subst; clear H1 H2.
-      split; [reflexivity|]. intros i. cbn [app]. exact (Hf i).
+    + cbn [peer_step negb].
+      intros H1 H2; inversion H1; inversion H2; subst; clear H1 H2.
+      split; [cbn [map]; rewrite Hm; reflexivity|]. intros i. cbn [app]. exact (Hf i).
 Qed.
 
-(* A send error toward peer q: the state evolves as without the error, every
-   other peer's datagrams are unchanged, and of peer q's datagrams exactly the
-   first k are transmitted. *)
+(* A send error toward peer q: the state evolves as without the error (except
+   that an initiation the bind refused is not outstanding), every other peer's
+   datagrams are unchanged, and of peer q's datagrams exactly the first k are
+   transmitted. *)
 Theorem fault_transmits_prefix : forall st pkts q k,
   let '(st1, o1) := step st (TunBatch pkts) in
   let '(st2, o2) := step st (TunBatchFault pkts q k) in
-  st2 = st1 /\
+  (s_tbl st2 = s_tbl st1 /\ s_mtu st2 = s_mtu st1 /\ s_up st2 = s_up st1 /\
+   map forget_init (s_peers st2) = map forget_init (s_peers st1)) /\
   (forall i, filter (fun x => out_peer x =? i) o2 =
              if i =? q then firstn (N.to_nat k) (filter (fun x => out_peer x =? i) o1)
              else filter (fun x => out_peer x =? i) o1).
@@ -970,6 +1019,18 @@ Proof.
     as [ps1 o1] eqn:H1.
   destruct (step_peers (s_tbl st) (s_mtu st) (s_up st) (TunBatchFault pkts q k) 0 (s_peers st))
     as [ps2 o2] eqn:H2.
-  destruct (step_peers_fault _ _ _ _ _ _ _ _ _ _ _ _ H1 H2) as [-> Hf].
-  split; [reflexivity|exact Hf].
+  destruct (step_peers_fault _ _ _ _ _ _ _ _ _ _ _ _ H1 H2) as [Hm Hf].
+  cbn [s_tbl s_mtu s_up s_peers]. repeat split; try reflexivity; assumption.
+Qed.
+
+(* The refused Send was the handshake initiation: nothing on the wire, and the
+   peer has no outstanding initiation. *)
+Theorem fault_refused_initiation : forall tbl mtu i p pkts,
+  (exists ep, snd (tun_step tbl mtu i p pkts) = [OInit i ep]) ->
+  p_init_out (fst (peer_step tbl mtu true i p (TunBatchFault pkts i 0))) = false /\
+  snd (peer_step tbl mtu true i p (TunBatchFault pkts i 0)) = [].
+Proof.
+  intros tbl mtu i p pkts [ep H]. rewrite peer_step_fault_eq.
+  destruct (tun_step tbl mtu i p pkts) as [p' o]. cbn [snd] in H. subst o.
+  rewrite N.eqb_refl. cbn [fst snd]. split; reflexivity.
 Qed.
